@@ -127,6 +127,7 @@ func (p *c17Proc) canary() string {
 	for _, comp := range []string{"", "lz4"} {
 		var last string
 		okc := false
+		timeouts := 0
 		for attempt := 0; attempt < 12 && !okc; attempt++ {
 			if !p.alive() {
 				return "process exited"
@@ -158,6 +159,12 @@ func (p *c17Proc) canary() string {
 				f, err = cl.CallF(BuildRequest(primitive.ProtocolVersion4, 2, KQuery, true, tok, primitive.ConsistencyLevelOne), 5*time.Second)
 				if err != nil {
 					last = "forwarded query: " + err.Error()
+					if err == rawcql.ErrTimeout {
+						timeouts++
+						if timeouts >= 2 { // the connection is open, local answers work, forwarded requests get no answer at all
+							attempt = 99
+						}
+					}
 					return
 				}
 				ri := DecodeReply(comp, f)
@@ -659,7 +666,10 @@ func c17ControlOverrides() map[string]func(c *fakecass.Conn, table string) messa
 
 // ---------------------------------------------------------------------------------------------------------------------
 
+var c17Findings int32
+
 func c17Crash(r *mon.Result, p *c17Proc, phase string, suspects []string, why string) {
+	atomic.AddInt32(&c17Findings, 1)
 	b, _ := os.ReadFile(p.stderr)
 	s := string(b)
 	kind, top, excerpt := "exit", "(no panic on stderr)", ""
@@ -719,7 +729,7 @@ func runC17(c *Ctx) {
 	r := c.R
 	r.Assume("declared frame body lengths above 16 MiB are out of scope (resource question); lz4 decoding in dependencies' assembly is not instrumented")
 	r.Assume("a start-up that fails with an error exit because the backend's system tables are unusable is not a crash; a panic / fatal error is")
-	r.Require("client_inputs_sent", "backend_hostilities", "control_overrides", "canary_rounds_ok")
+	r.Require("client_inputs_sent", "backend_hostilities", "backend_hostile_replies_sent", "control_overrides", "canary_rounds_ok")
 	maxvs := []string{"v4", "DSEv2"}
 	if !c.Quick() {
 		maxvs = []string{"v3", "v4", "v5", "DSEv1", "DSEv2"}
@@ -760,6 +770,10 @@ func runC17(c *Ctx) {
 					r.Obs("client_inputs_sent", 1)
 					r.Eval(1)
 					r.NonTrivial("client/" + maxv + "/" + h.Kind)
+					if atomic.LoadInt32(&c17Findings) >= 8 {
+						r.Obs("client_phase_cut_short_after_8_findings", 1)
+						break
+					}
 					if (i+1)%20 == 0 || i == len(inputs)-1 {
 						wg.Wait()
 						if why := p.canary(); why != "" {
@@ -810,12 +824,23 @@ func runC17(c *Ctx) {
 						cl, err := rawcql.Dial(p.addr, primitive.ProtocolVersion4, nil)
 						if err == nil && cl.Handshake("", 5*time.Second) == nil {
 							for k := 0; k < 3; k++ { // hit both hosts
-								f := BuildRequest(primitive.ProtocolVersion4, int16(k+1), []ReqKind{KQuery, KExecute, KBatch}[k%3], true, fmt.Sprintf("T0000000bad%05d", rng.Intn(99999)), primitive.ConsistencyLevelOne)
+								f := BuildRequest(primitive.ProtocolVersion4, int16(k+1), []ReqKind{KQuery, KExecute, KBatch}[k%3], true, fmt.Sprintf("T0000000bad%06d", rng.Intn(999999)), primitive.ConsistencyLevelOne)
 								_, _ = cl.CallF(f, 300*time.Millisecond)
 							}
 							cl.Close()
 						}
 						cur.Store((*backendHostility)(nil))
+						sent := 0
+						for _, e := range p.log.Snapshot() {
+							if e.Src == "backend" && e.K == "reply" && e.Outcome == h.Kind {
+								sent++
+							}
+						}
+						if sent > 0 {
+							r.Obs("backend_hostile_replies_sent", 1)
+						} else {
+							r.Obs("backend_hostilities_not_delivered", 1)
+						}
 						r.Obs("backend_hostilities", 1)
 						r.Eval(1)
 						r.NonTrivial("backend/" + maxv + "/" + h.Kind)
@@ -838,6 +863,47 @@ func runC17(c *Ctx) {
 					}
 					if p == nil {
 						break
+					}
+				}
+				// the proxy's own re-PREPARE (sent after an UNPREPARED) is answered with UNPREPARED again
+				if p != nil {
+					kind := "reply/unprepared-answer-to-re-prepare"
+					c.Step("c17 backend hostility maxv=%s %s", maxv, kind)
+					cl, err := rawcql.Dial(p.addr, primitive.ProtocolVersion4, nil)
+					if err == nil && cl.Handshake("", 5*time.Second) == nil {
+						if f, err := cl.Call(1, &message.Prepare{Query: idemPrepared}, 5*time.Second); err == nil && f.OpCode == primitive.OpCodeResult {
+							for _, h := range p.cluster.Hosts {
+								h.Forget()
+							}
+							var nPrep int32
+							p.cluster.SetScript(func(a *fakecass.Arrival) fakecass.Outcome {
+								if a.OpCode == primitive.OpCodePrepare && atomic.AddInt32(&nPrep, 1) <= 3 {
+									return fakecass.Outcome{Name: kind, Msg: &message.Unprepared{ErrorMessage: "unprepared again", Id: fakecass.PreparedID("", idemPrepared)}}
+								}
+								return fakecass.Outcome{}
+							})
+							_, _ = cl.CallF(BuildRequest(primitive.ProtocolVersion4, 2, KExecute, true, NewTok(), primitive.ConsistencyLevelOne), 2*time.Second)
+							if atomic.LoadInt32(&nPrep) > 0 {
+								r.Obs("backend_hostile_replies_sent", 1)
+							}
+						}
+						cl.Close()
+					}
+					r.Obs("backend_hostilities", 1)
+					r.Eval(1)
+					r.NonTrivial("backend/" + maxv + "/" + kind)
+					if why := p.canary(); why != "" {
+						c17Crash(r, p, "backend-reply", []string{kind}, why)
+						p.stop()
+						if p, err = c17Start(c, maxv, "backend"); err != nil {
+							r.Inconc("c17: cannot restart the proxy: " + err.Error())
+							p = nil
+						}
+					} else {
+						r.Obs("canary_rounds_ok", 1)
+					}
+					if p != nil {
+						p.cluster.SetScript(nil)
 					}
 				}
 				// garbage and unexpected frames on the CONTROL connection and bad heartbeat replies
